@@ -84,6 +84,27 @@ class Prop:
                 if f not in [k for k, _ in kv] and tb_field(o, KEY[f]) != 'N':
                     ctx.fail('a field that was not given is not None', dict(inp, field=f), 'N', tb_field(o, KEY[f]),
                              {'kind': 'rt-absent'})
+        # 1b. values that are not strings: create() renders str(value); a value that compares equal to one seen
+        # before but prints differently (1, 1.0, True) must still come back as its own text (create is a
+        # function of its arguments, whatever was created before) - implementation only
+        typed = [(1, 1.0), (1.0, 1), (1, True), (True, 1), (0, False), (0, 0.0), (5.0, 5), (1671533231, 1671533231.0),
+                 (False, 0), (2, 2)]
+        for f in ('line_count', 'relative_time', 'receiver_timestamp'):
+            for first, second in typed:
+                ctx.evaluations += 1
+                try:
+                    impl.M.TagBlock.create(**{f: first})
+                    raw = impl.M.TagBlock.create(**{f: second})
+                    o = impl.step('tagblock.parse ' + impl.hx(raw))
+                except Exception as e:  # noqa
+                    ctx.fail('TagBlock.create raised on a non-string value', {'cmd': 'typed', 'field': f,
+                             'first': repr(first), 'second': repr(second)}, 'a tag block', impl.err(e), {'kind': 'rt-typed'})
+                    continue
+                exp = impl.hx(str(second).encode())
+                if tb_field(o, KEY[f]) != exp:
+                    ctx.fail('a created field does not parse back to the text of the value given',
+                             {'cmd': 'typed', 'field': f, 'first': repr(first), 'second': repr(second)}, exp,
+                             tb_field(o, KEY[f]), {'kind': 'rt-typed', 'field': f})
         # 2. validity flag: all checksum values and a token matrix
         content = b's:station1,c:1671533231,t:hello'
         good = xor(content)
